@@ -166,7 +166,7 @@ class Evaluator:
         feat = mcprog2.feature(prog)
         run = mc_red.Runner(self.vm, self.mc, self.workdir, case["name"], case["spec"])
         refcfg = mc_red.Config("none")
-        ref = run.run(refcfg, self.t_ref)
+        ref, _ = run.run_confirmed(refcfg, self.t_ref)
         if ref.timed_out:
             ctx.inconclusive("watchdog:reference:%s" % case["pop"])
             return
